@@ -3,4 +3,4 @@ From Coq Require Import ZArith List.
 From DV Require Import Base Bid Arith OpsArith OpsCmp OpsMisc OpsConv OpsStr Judge TinyAfter.
 Require Import Extraction ExtrOcamlBasic.
 Extraction Language OCaml.
-Extraction "model.ml" expected judge expect_list md_of expected_ta.
+Extraction "model.ml" expected judge expect_list md_of expected_ta expected_ta_kf.
